@@ -61,6 +61,8 @@ const K_FZP: &str = "C03:fuzzy-prefix-forgets-improvable-prefix-match";
 const K_RANGE_UNDERFLOW: &str = "C03:excluded-range-docset-seek-distance-underflow";
 const K_BWI_JSON: &str = "C03:block-wand-intersection-json-numeric-term-panic";
 const K_JSON_U64_LOWER: &str = "C03:json-range-u64-lower-bound-on-i64-column";
+const K_JSON_F64_FRACT: &str = "C03:json-range-f64-fractional-bound-rounded-toward-zero";
+const K_JSON_F64_BELOW: &str = "C03:json-range-f64-upper-bound-below-u64-column-min";
 const K_S6B: &str = "C03:phrase-slop3-differs-from-budget-meaning";
 
 fn fld(id: u32) -> Field {
@@ -1894,6 +1896,8 @@ enum JB {
     Unb,
     /// (inclusive, is_u64_term, value)
     Val(bool, bool, i128),
+    /// (inclusive, h): an f64 term with the value h / 2
+    F(bool, i64),
 }
 
 fn jb_bound(key: usize, b: &JB) -> Bound<Term> {
@@ -1904,6 +1908,11 @@ fn jb_bound(key: usize, b: &JB) -> Bound<Term> {
             if *is_u { t.append_type_and_fast_value(*v as u64); } else { t.append_type_and_fast_value(*v as i64); }
             if *incl { Bound::Included(t) } else { Bound::Excluded(t) }
         }
+        JB::F(incl, h) => {
+            let mut t = json_term(key);
+            t.append_type_and_fast_value(*h as f64 / 2.0);
+            if *incl { Bound::Included(t) } else { Bound::Excluded(t) }
+        }
     }
 }
 
@@ -1911,12 +1920,13 @@ fn jb_model(b: &JB) -> String {
     match b {
         JB::Unb => "u i 0".into(),
         JB::Val(incl, is_u, v) => format!("{} {} {}", if *incl { "i" } else { "e" }, if *is_u { "u" } else { "i" }, v),
+        JB::F(incl, h) => format!("{} f {}", if *incl { "i" } else { "e" }, h),
     }
 }
 
 fn jb_holds(lo: &JB, hi: &JB, v: i128) -> bool {
-    (match lo { JB::Unb => true, JB::Val(true, _, b) => *b <= v, JB::Val(false, _, b) => *b < v })
-        && (match hi { JB::Unb => true, JB::Val(true, _, b) => v <= *b, JB::Val(false, _, b) => v < *b })
+    (match lo { JB::Unb => true, JB::Val(true, _, b) => *b <= v, JB::Val(false, _, b) => *b < v, JB::F(true, h) => (*h as i128) <= 2 * v, JB::F(false, h) => (*h as i128) < 2 * v })
+        && (match hi { JB::Unb => true, JB::Val(true, _, b) => v <= *b, JB::Val(false, _, b) => v < *b, JB::F(true, h) => 2 * v <= *h as i128, JB::F(false, h) => 2 * v < *h as i128 })
 }
 
 /// one (corpus, path, bounds) case; the corpus holds only the JSON field
@@ -1932,6 +1942,9 @@ fn check_json_range_case(ctx: &mut Ctx, spec: &CorpusSpec, b: &Built, key: usize
     // implementation model, per segment (the column type is a property of the segment)
     let mut model: Vec<u64> = vec![];
     let mut u64_lower_on_i64 = false;
+    let mut f64_upper_below_min = false;
+    // a fractional bound is replaced by Included(trunc): wrong for a positive lower / negative upper bound
+    let f64_fract = matches!(lo, JB::F(_, h) if *h > 0 && *h % 2 != 0) || matches!(hi, JB::F(_, h) if *h < 0 && *h % 2 != 0);
     for seg in &b.segs {
         let vals: Vec<(u64, bool, i128)> = seg.iter().filter_map(|(d, alive)| value_of(d).map(|v| (d.id, *alive, v))).collect();
         if vals.is_empty() { continue; }
@@ -1939,6 +1952,7 @@ fn check_json_range_case(ctx: &mut Ctx, spec: &CorpusSpec, b: &Built, key: usize
         // the column i64 only when it is strictly below i64::MAX (columnar accept_value)
         let col = if key == 1 || vals.iter().all(|x| x.2 < i64::MAX as i128) { "i" } else { "u" };
         if col == "i" { if let JB::Val(_, true, v) = lo { if *v > i64::MAX as i128 { u64_lower_on_i64 = true; } } }
+        if col == "u" { if let JB::F(_, h) = hi { if *h < 0 { f64_upper_below_min = true; } } }
         let list = vals.iter().map(|x| x.2.to_string()).collect::<Vec<_>>().join(",");
         let ans = ctx.model.ask(&format!("C03 jrange {col} {} {} {} {list}", if key == 1 { "i" } else { "u" }, jb_model(lo), jb_model(hi)));
         let parts: Vec<&str> = ans.split('|').collect();
@@ -1965,7 +1979,7 @@ fn check_json_range_case(ctx: &mut Ctx, spec: &CorpusSpec, b: &Built, key: usize
         Ok(r) => r,
         Err(_) => { ctx.report.violation("oracle", "C03:panic", format!("json range panicked ({})", last_panic()), case); return; }
     };
-    ctx.report.count(&format!("json-range:key-{}:{}", JKEYS[key], match lo { JB::Val(_, true, _) => "u64-term", JB::Val(_, false, _) => "i64-term", JB::Unb => match hi { JB::Val(_, true, _) => "u64-term", _ => "i64-term" } }));
+    ctx.report.count(&format!("json-range:key-{}:{}", JKEYS[key], match lo { JB::Val(_, true, _) => "u64-term", JB::Val(_, false, _) => "i64-term", JB::F(..) => "f64-term", JB::Unb => match hi { JB::Val(_, true, _) => "u64-term", JB::F(..) => "f64-term", _ => "i64-term" } }));
     ctx.report.case(&format!("jr|{}|{:?}|{:?}|{}", key, lo, hi, n_docs), !expect.is_empty() && expect.len() < b.expected_live.len());
     let outs: Vec<(&str, Result<Vec<u64>, String>)> = vec![
         ("DocSetCollector", real.0.map_err(|e| e.to_string())),
@@ -1976,7 +1990,10 @@ fn check_json_range_case(ctx: &mut Ctx, spec: &CorpusSpec, b: &Built, key: usize
             Err(e) => ctx.report.violation("oracle", "C03:unexpected-error", format!("{name}: {e} for json range {:?}..{:?} on attrs.{}", lo, hi, JKEYS[key]), case.clone()),
             Ok(ids) => {
                 if ids != expect {
-                    let key_v = if ids == model && u64_lower_on_i64 { K_JSON_U64_LOWER } else { "C03:json-range-differs-from-numeric-meaning" };
+                    let key_v = if ids == model && u64_lower_on_i64 { K_JSON_U64_LOWER }
+                        else if ids == model && f64_upper_below_min { K_JSON_F64_BELOW }
+                        else if ids == model && f64_fract { K_JSON_F64_FRACT }
+                        else { "C03:json-range-differs-from-numeric-meaning" };
                     ctx.report.violation("oracle", key_v, format!("{name} gives {} but the numeric meaning gives {} for attrs.{}: {:?} .. {:?}", short(&ids), short(&expect), JKEYS[key], lo, hi), case.clone());
                 }
                 if ids != model {
@@ -2027,6 +2044,12 @@ fn check_json_ranges(ctx: &mut Ctx, n_corpora: u64, n_queries: usize) {
             let (mut lo, hi) = (bound(&mut rng), bound(&mut rng));
             if lo == JB::Unb && hi == JB::Unb { lo = JB::Val(true, is_u, 0); }
             check_json_range_case(ctx, &spec, &b, key, &lo, &hi);
+            // the same shape with f64 terms (halves: exact in binary64)
+            let hs: [i64; 11] = [-13, -10, -3, -2, -1, 0, 1, 2, 3, 10, 8193];
+            let mut fb = |rng: &mut Rng| -> JB { if rng.chance(1, 5) { JB::Unb } else { JB::F(rng.chance(1, 2), *rng.pick(&hs)) } };
+            let (mut flo, fhi) = (fb(&mut rng), fb(&mut rng));
+            if flo == JB::Unb && fhi == JB::Unb { flo = JB::F(true, 1); }
+            check_json_range_case(ctx, &spec, &b, key, &flo, &fhi);
         }
     }
 }
